@@ -162,6 +162,28 @@ def _replay_strs(shape, shape2):
     return replay
 
 
+def _body_int_float(n1, n2):
+    def body():
+        from pyrepseq import stats
+        from vlib import sym, symops as so
+        xs = [sym.sym_int(f"x{i}", 0, 3) for i in range(n1)]
+        ys = [so.add(sym.sym_int(f"y{i}", 0, 3), 0.5) for i in range(n2)]      # half-integers never coincide with integers
+        got = stats.pc(list(xs), list(ys))
+        rev = stats.pc(list(ys), list(xs))
+        return so.b_and(so.close(got, 0, 1e-12), so.close(rev, 0, 1e-12)), f"pc(ints, half-integers) = {got!r} / reversed {rev!r}, expected 0"
+    return body
+
+
+def _replay_int_float(n1, n2):
+    def replay(inputs):
+        from pyrepseq import stats
+        xs = [int(inputs[f"x{i}"]) for i in range(n1)]
+        ys = [int(inputs[f"y{i}"]) + 0.5 for i in range(n2)]
+        got, rev = stats.pc(xs, ys), stats.pc(ys, xs)
+        return got == 0 and rev == 0, f"pc({xs}, {ys}) = {got!r}, reversed {rev!r}, expected 0"
+    return replay
+
+
 # ---------------------------------------------------------------- (c) tables
 COLS = ["CDR3A", "CDR3B", "V"]
 
@@ -290,6 +312,8 @@ def conditions(tier):
     for sa, sb in [((1,), (2,)), ((2,), (1, 2)), ((1, 2), (2, 3))]:
         out.append(Condition(f"C02/pc2/strs/len={','.join(map(str, sa))}/{','.join(map(str, sb))}", _body_strs(sa, sb), _replay_strs(sa, sb),
                              budget=300, models=M, bounds=f"two samples of free strings with different lengths {sa} / {sb}"))
+    out.append(Condition("C02/pc2/ints-vs-halfintegers/2x2", _body_int_float(2, 2), _replay_int_float(2, 2), budget=300, models=M,
+                         bounds="2 symbolic integers against 2 symbolic half-integers (mixed numeric dtypes)"))
     T = [
         ("2x1", ((1,), (1,))), ("3x1", ((1,), (1,), (1,))), ("2x2", ((1, 1), (1, 1))), ("2x2sep", ((2, 1), (1, 2))),
         ("3x2", ((1, 1), (1, 1), (1, 1))), ("2x3", ((1, 1, 1), (1, 1, 1))),
